@@ -294,6 +294,8 @@ def extract_fn(repo: Path, unit: VUnit, f: Fn) -> tuple[str, dict]:
             raise LostAnchor(f"fn {f.name}: loop #{ordinal} not found (function has {len(sites)} loops)")
         kw, brace = sites[ordinal - 1]
         parts = []
+        if spec.get("invariant_except_break"):
+            parts.append("invariant_except_break " + ", ".join(spec["invariant_except_break"]) + ",")
         if spec.get("invariant"):
             parts.append("invariant " + ", ".join(spec["invariant"]) + ",")
         if spec.get("ensures"):
